@@ -996,7 +996,7 @@ func (tb *TB) Skolems(t *Term) []*Term {
 			return
 		}
 		seen[x.id] = true
-		if x.op == "var" && !x.bound && (strings.Contains(x.name, "!sk") || strings.HasPrefix(x.name, "crc.k")) {
+		if x.op == "var" && !x.bound && (strings.Contains(x.name, "!sk") || strings.Contains(x.name, "!wit") || strings.HasPrefix(x.name, "crc.k")) {
 			out = append(out, x)
 		}
 		if x.op == "app" && strings.Contains(x.name, "!skf") && !x.hasBound && x.sort.K == KBV && x.sort.W == 64 {
@@ -1303,7 +1303,7 @@ func (tb *TB) InstAll(h *Term, points []*Term, apps map[string][]*Term, depth in
 			key := h.id
 			sk, ok := tb.negSk[key]
 			if !ok {
-				sk = tb.Fresh(v.name+"!sk", v.sort)
+				sk = tb.Fresh(v.name+"!wit", v.sort)
 				if tb.negSk == nil {
 					tb.negSk = map[int]*Term{}
 				}
